@@ -352,13 +352,13 @@ func (d *jsonDecoder) unmarshalScalar(fd protoreflect.FieldDescriptor) (protoref
 	case protoreflect.BoolKind:
 		return jsonValueDecode(d.dec, protoreflect.ValueOfBool)
 	case protoreflect.Int32Kind, protoreflect.Sint32Kind, protoreflect.Sfixed32Kind:
-		return jsonValueDecode(d.dec, jsonConvertNumber(protoreflect.ValueOfInt32))
+		return jsonIntDecode(fd, d.dec, 32, strconv.ParseInt, protoreflect.ValueOfInt32)
 	case protoreflect.Int64Kind, protoreflect.Sint64Kind, protoreflect.Sfixed64Kind:
-		return jsonValueDecode(d.dec, jsonConvertNumber(protoreflect.ValueOfInt64))
+		return jsonIntDecode(fd, d.dec, 64, strconv.ParseInt, protoreflect.ValueOfInt64)
 	case protoreflect.Uint32Kind, protoreflect.Fixed32Kind:
-		return jsonValueDecode(d.dec, jsonConvertNumber(protoreflect.ValueOfUint32))
+		return jsonIntDecode(fd, d.dec, 32, strconv.ParseUint, protoreflect.ValueOfUint32)
 	case protoreflect.Uint64Kind, protoreflect.Fixed64Kind:
-		return jsonValueDecode(d.dec, jsonConvertNumber(protoreflect.ValueOfUint64))
+		return jsonIntDecode(fd, d.dec, 64, strconv.ParseUint, protoreflect.ValueOfUint64)
 	case protoreflect.FloatKind:
 		return jsonFloatDecode(fd, d.dec, protoreflect.ValueOfFloat32)
 	case protoreflect.DoubleKind:
@@ -403,11 +403,32 @@ func jsonValueDecode[T any](dec *json.Decoder, convert func(T) protoreflect.Valu
 	return convert(val), nil
 }
 
-func jsonConvertNumber[T constraints.Integer](convert func(T) protoreflect.Value) func(json.Number) protoreflect.Value {
-	return func(n json.Number) protoreflect.Value {
-		i, _ := n.Int64()
-		return convert(T(i))
+// jsonIntDecode decodes a JSON number or a quoted number into an integer of the given size.
+// The literal is parsed with the exact bit size of the field, so that fractional values, exponents,
+// and values out of range for the field are rejected instead of being silently truncated or wrapped.
+func jsonIntDecode[P constraints.Integer, T constraints.Integer](
+	fd protoreflect.FieldDescriptor,
+	dec *json.Decoder,
+	bitSize int,
+	parse func(s string, base int, bitSize int) (P, error),
+	convert func(T) protoreflect.Value,
+) (protoreflect.Value, error) {
+	var n json.Number
+	if err := dec.Decode(&n); err != nil {
+		return protoreflect.Value{}, err
 	}
+
+	// null leaves the json.Number empty, and is treated as the zero value, just like for all the other scalar kinds.
+	if n == "" {
+		return convert(0), nil
+	}
+
+	i, err := parse(string(n), 10, bitSize)
+	if err != nil {
+		return protoreflect.Value{}, fmt.Errorf("invalid value for %v type: %v", fd.Kind(), n)
+	}
+
+	return convert(T(i)), nil
 }
 
 func jsonFloatDecode[T constraints.Float](fd protoreflect.FieldDescriptor, dec *json.Decoder, convert func(T) protoreflect.Value) (protoreflect.Value, error) {
